@@ -1086,7 +1086,10 @@ def emit_fn(gen, sf, item, spec, canary=False, qual='', in_trait=False):
         name=('__canary_' if canary else '') + item.name, qual=qual, rel=sf.rel,
         line=line_of(src, toks[item.kw].start) + sf.line_base, hash=hashlib.sha256(body.encode()).hexdigest()[:16],
         gen_start=start_line, gen_end=end_line, canary=canary,
-        contract=bool(spec.inserts), loops=len(fi.loops)))
+        contract=bool(spec.inserts), loops=len(fi.loops),
+        shape=dict(loops=len(fi.loops), returns=len(fi.returns), breaks=len(fi.breaks), closures=len(fi.closures)),
+        ordinal=any(a.split()[0] in ('loop', 'before-loop', 'after-loop', 'return', 'break', 'closure', 'mapcollect') for a, _, _ in spec.inserts)
+                or any(r in ('R-FOR', 'R-ENUM', 'R-ITER', 'R-HOIST', 'R-INTOVEC', 'R-CUTTAIL', 'R-CLOSPAT', 'R-MAPCOLLECT') for r, _ in spec.rewrites)))
     if not canary:
         for e in edits:
             if isinstance(e[3], str) and e[3] not in ('R-VIS', 'R-ATTR', 'R-CANARY'):
@@ -1195,8 +1198,36 @@ def emit_item(gen, sf, item, only=None, constcall=False, dropauto=False):
         gen.dropped[e[3]] = gen.dropped.get(e[3], 0) + 1
 
 
-def generate(unit_path, canaries=True):
+def check_shapes(gen, unit_path, record=False):
+    """Structural anchors are ordinals (loop K, return J, ...). If the number of loops / returns / breaks / closure
+    literals of a function that uses such anchors differs from the recorded shape, the anchors may land on the wrong
+    construct: that is a LOST ANCHOR (exit 2), never an alarm."""
+    import json
+    path = os.path.join(os.path.dirname(unit_path), 'shape.json')
+    cur = {}
+    for f in gen.functions:
+        if not f['canary'] and f.get('ordinal'):
+            cur[f['qual'] + f['name']] = f['shape']
+    if record:
+        json.dump(cur, open(path, 'w'), indent=1, sort_keys=True)
+        return
+    try:
+        want = json.load(open(path))
+    except OSError:
+        return
+    for k, v in want.items():
+        if k in cur and cur[k] != v:
+            raise LostAnchor(f'shape of {k} changed: recorded {v}, now {cur[k]} (ordinal anchors would be ambiguous)')
+
+
+def generate(unit_path, canaries=True, record_shapes=False):
     """Returns Generated. unit_path: path of unit.vs"""
+    gen = _generate(unit_path, canaries)
+    check_shapes(gen, unit_path, record=record_shapes)
+    return gen
+
+
+def _generate(unit_path, canaries=True):
     gen = Generated()
     lines = []
 
